@@ -24,11 +24,11 @@ TNext ==
     \/ Is("setbc") /\ P_SetBc(E.sid, E.on)
     \/ Is("setml") /\ P_SetMl(E.sid, E.on)
     \/ Is("send") /\ P_Send(E.sid, E.dst, E.len, E.res) /\ Len(sends) + 1 = E.id
-    \/ Is("arrive") /\ (IF E.id \in Ids THEN P_Arrive(E.id, E.h, E.p, E.dk) ELSE UNCHANGED pvars)
+    \/ Is("arrive") /\ (IF E.id \in Ids THEN P_ArriveA(E.id, E.h, E.p, E.dk, E.amb) ELSE UNCHANGED pvars)
     \/ Is("recv") /\ P_Recv(E.sid, E.buf, E.res)
     \/ Is("readable") /\ P_Readable(E.sid, E.res)
     \/ Is("quiesce") /\ P_Quiesce
-    \/ /\ l <= Len(Rec) /\ Rec[l].ev \in {"step", "links", "tables"}
+    \/ /\ l <= Len(Rec) /\ Rec[l].ev \in {"step", "links", "tables", "tarrive"}
        /\ l' = l + 1 /\ UNCHANGED pvars
 
 TSpec == TInit /\ [][TNext]_<<pvars, l>>
